@@ -99,3 +99,65 @@ def run(case):
     pr, qr = one(C17Backend, case)
     _, sr = one(TextQueryTestBackend, case)
     return {"pipe": pr, "q": qr, "stock": sr}
+
+
+# ---------------------------------------------------------------------------------------------
+# histories: ONE pipeline object (and so one instance of every transformation) and ONE backend are used
+# for several conversions; the variable table seen by the transformations is changed between the steps.
+# case = {"items": [...], "vars": {...}, "mode": "convert" | "apply",
+#         "steps": [{"op": [kind, ...], "field": bool, "mods": [...], "values": [...]}, ...]}
+# op: ["none"] | ["set", name, value] | ["del", name] | ["append", name, value] (list variables only)
+#     | ["override", {name: value}]  (backend.processing_pipeline = old + ProcessingPipeline(vars=...))
+# result = {"steps": [{"pipe":..., "q":..., "stock":...}, ...]}  - same shape per step as run()
+import copy
+
+
+class _Hist:
+    def __init__(self, backend_cls, case):
+        case = copy.deepcopy(case)          # the two backends must not share variable lists
+        self.mode = case["mode"]
+        self.pipe = ProcessingPipeline.from_dict(pipeline_dict(case))
+        self.backend = backend_cls(self.pipe) if self.mode == "convert" else backend_cls()
+
+    def op(self, op):
+        op = copy.deepcopy(op)
+        k = op[0]
+        if k == "set":
+            self.pipe.vars[op[1]] = op[2]
+        elif k == "del":
+            self.pipe.vars.pop(op[1], None)
+        elif k == "append":
+            if isinstance(self.pipe.vars.get(op[1]), list):
+                self.pipe.vars[op[1]].append(op[2])
+        elif k == "override":
+            self.pipe = self.pipe + ProcessingPipeline(vars=dict(op[1]))
+            if self.mode == "convert":
+                self.backend.processing_pipeline = self.pipe
+
+    def step(self, st):
+        try:
+            rule = SigmaRule.from_dict(rule_dict(st))
+        except Exception as e:
+            return {"stage": "rule", **exc(e)}, {"stage": "rule", **exc(e)}
+        try:
+            if self.mode == "convert":
+                q = self.backend.convert(SigmaCollection([rule]))
+            else:
+                self.pipe.apply(rule)
+                q = self.backend.convert(SigmaCollection([rule]))
+            qr = {"ok": q[0] if len(q) == 1 else repr(q)}
+        except Exception as e:
+            qr = exc(e)
+        item = rule.detection.detections["sel"].detection_items[0]
+        return {"vals": [enc_val(v) for v in item.value]}, qr
+
+
+def run_history(case):
+    a, b = _Hist(C17Backend, case), _Hist(TextQueryTestBackend, case)
+    out = []
+    for st in case["steps"]:
+        a.op(st["op"]); b.op(st["op"])
+        pr, qr = a.step(st)
+        _, sr = b.step(st)
+        out.append({"pipe": pr, "q": qr, "stock": sr})
+    return {"steps": out}
